@@ -245,7 +245,16 @@ class C20Session(Session):
                     continue
                 want = M.effective(i, leaf, show_kw)
                 if leaf == "color" and want is None:
-                    continue  # filled from the colour cycle / the parent collection
+                    # no colour of its own: "a Collection will apply its color to all children", the top
+                    # level objects take theirs from the colour cycle
+                    if o._parent is not None and o._parent in props:
+                        pc = flat(props[o._parent]["style"]).get("color")
+                        if st.get("color") != pc:
+                            raise Violation("resolution", f"flattened: object {i} ({M.cls[i]}) has no colour of its "
+                                            f"own but shows {st.get('color')!r}, its collection {pc!r}",
+                                            leaf="color", source="collection", **sig)
+                        self.probe("colour_inherited_from_collection")
+                    continue
                 got = st.get(leaf, "<missing>")
                 if got != want:
                     raise Violation("resolution", f"flattened: object {i} ({M.cls[i]}) {leaf} = {got!r}, expected "
